@@ -6,12 +6,13 @@ from vf.instrument import StepLog
 from vf.problems import dtype_of, rng_for
 
 LEVEL = "exploration"
+NO_PROGRESS_IS_VIOLATION = True   # the statement promises returned states in both directions of time: a loop that cannot end refutes it
 RULE = ("kinds: steps (non-adaptive method, no intervention: every recorded step but the last has magnitude dt to rounding, none longer; "
         "implicit methods may shorten only with a logged Newton failure), shift ((t0,tf) vs (t0+c,tf+c) on an autonomous system), "
         "reflect (y'=f(y) on (t0,tf) vs w'=-f(w) on (-t0,-tf)); non-trivial = >=3 full-length steps; distinct by (kind,method,span,dt,shift)")
 ASSUMPTIONS = ["the set of fixed-step methods is computed at run time from is_adaptive", "dt >= 64 ulp of the largest time"]
-FLOORS = {"quick": {"runs_checked": 120, "full_length_steps": 1200, "shift_pairs": 30, "reflect_pairs": 30, "backward_runs": 40, "multi_leg_runs": 12},
-          "thorough": {"runs_checked": 1200, "full_length_steps": 12000, "shift_pairs": 120, "reflect_pairs": 120, "backward_runs": 400, "multi_leg_runs": 120}}
+FLOORS = {"quick": {"runs_checked": 120, "full_length_steps": 1200, "shift_pairs": 30, "reflect_pairs": 30, "backward_runs": 40, "multi_leg_runs": 12, "richardson_pairs": 6},
+          "thorough": {"runs_checked": 1200, "full_length_steps": 12000, "shift_pairs": 120, "reflect_pairs": 120, "backward_runs": 400, "multi_leg_runs": 120, "richardson_pairs": 24}}
 SPANS = [(0.0, 2.0), (-5.0, 1.0), (-10.0, -5.0), (10.0, 5.0), (1.0, -5.0), (3.0, -3.0), (0.0, -2.0), (-2.0, 0.0), (-0.5, 0.25), (7.0, 7.5), (100.0, 103.0)]
 SHIFTS = [1.0, -1.0, 7.3, -7.3, 1e3, -1e3]
 K = 64
@@ -81,6 +82,18 @@ def gen_cases(tier, seed):
             L = abs(span[1] - span[0])
             cases.append(dict(kind="reflect", method=name, dtype="float64", span=list(span), dt=L / nsteps, nsteps=nsteps,
                               pseed=int(rng.integers(1 << 30)), cost=(2 if info["explicit"] else 16)))
+    # Richardson wrappers (adaptive) in the shift / reflection relations; bases flagged symplectic take their own step-size branch
+    for base in ["RK4Solver", "ImplicitMidpoint", "SymplecticEulerSolver", "MidpointSolver"]:
+        for rep in range(1 if tier == "quick" else 4):
+            for kind in ("reflect", "shift"):
+                span = SPANS[int(rng.integers(len(SPANS)))]
+                if not M[base]["explicit"]:
+                    # (cost: the wrapper's symplectic branch only halves/doubles, and the implicit base's solver noise keeps it at small steps)
+                    span = [(-0.5, 0.25), (7.0, 7.5), (0.25, -0.5), (-7.0, -7.5)][int(rng.integers(4))]
+                L = abs(span[1] - span[0])
+                nsteps = float(rng.choice([12.5, 40.0]))
+                cases.append(dict(kind=kind, method=base, rich=3, dtype="float64", span=list(span), dt=L / nsteps, nsteps=nsteps, shift=float(rng.choice(SHIFTS)),
+                                  pseed=int(rng.integers(1 << 30)), cost=30 if M[base]["explicit"] else 200))
     return cases
 
 
@@ -94,6 +107,8 @@ def _run(info, prob, y0, t0, tf, dt, dtype, tol, log=False):
 def run_case(spec):
     M = util.methods()
     info = M[spec["method"]]
+    if spec.get("rich"):
+        info = dict(info, cls=util.richardson(info["cls"], spec["rich"]), adaptive=True, family="richardson")
     dtype = dtype_of(spec["dtype"])
     eps = float(np.finfo(dtype).eps)
     t0, tf = spec["span"]
@@ -102,6 +117,9 @@ def run_case(spec):
     rec = util.Rec(sig="%s|%s|%s|%s|%s|%s" % (spec["kind"], spec["method"], spec["dtype"], spec["span"], spec["nsteps"], spec.get("shift")))
     feats = {"kind": spec["kind"], "method": spec["method"], "family": info["family"], "dtype": spec["dtype"], "direction": d}
     tol = dict(rtol=1e-8, atol=1e-10) if info["adaptive"] or not info["explicit"] else {}
+    if spec.get("rich"):
+        tol = dict(rtol=1e-6, atol=1e-8)
+        feats["richardson"] = spec["rich"]
     if spec["dtype"] == "float32":
         tol = {}
     if spec["kind"] == "steps":
@@ -249,6 +267,8 @@ def _shift(spec, info, prob, dtype, eps, t0, tf, d, tol, rec, feats):
                         cause_a=repr(getattr(sega["exc"], "__cause__", None))[:200], cause_b=repr(getattr(segb["exc"], "__cause__", None))[:200])
         return rec.out()
     rec.bump("shift_pairs")
+    if spec.get("rich"):
+        rec.bump("richardson_pairs")
     rec.bump("runs_checked", 2)
     if d < 0:
         rec.bump("backward_runs", 2)
@@ -274,6 +294,8 @@ def _reflect(spec, info, prob, dtype, eps, t0, tf, d, tol, rec, feats):
                         cause_a=repr(getattr(sega["exc"], "__cause__", None))[:200], cause_b=repr(getattr(segb["exc"], "__cause__", None))[:200])
         return rec.out()
     rec.bump("reflect_pairs")
+    if spec.get("rich"):
+        rec.bump("richardson_pairs")
     rec.bump("runs_checked", 2)
     rec.bump("backward_runs", 1)
     rec.nontrivial = len(sa) >= 4
